@@ -112,7 +112,9 @@ class Exprs:
                 d = s["dst"]
                 if d is not None:
                     if d["p"]:
-                        self.partial[d["l"]] = self.partial.get(d["l"], 0) + 1
+                        # a write through a dereference changes the pointee, not the local itself
+                        if "deref" not in [e for e in d["p"] if isinstance(e, str)]:
+                            self.partial[d["l"]] = self.partial.get(d["l"], 0) + 1
                     else:
                         self.defs.setdefault(d["l"], []).append(("stmt", bi, si, s["rv"]))
                 rv = s["rv"]
@@ -125,7 +127,8 @@ class Exprs:
             if t["k"] == "call":
                 d = t["dest"]
                 if d["p"]:
-                    self.partial[d["l"]] = self.partial.get(d["l"], 0) + 1
+                    if "deref" not in [e for e in d["p"] if isinstance(e, str)]:
+                        self.partial[d["l"]] = self.partial.get(d["l"], 0) + 1
                 else:
                     self.defs.setdefault(d["l"], []).append(("call", bi, None, t))
         self._memo = {}
